@@ -119,6 +119,7 @@ fn cmd_worker(args: &Args) -> i32 {
         want_hashes: args.get("want-hashes").is_some(),
         hang_secs: args.num("hang-secs", 20),
         deadline_secs: args.num("deadline-secs", 0),
+        trace: args.get("trace").map(|s| s.to_string()),
     };
     worker(prop.as_ref(), &a)
 }
@@ -133,59 +134,115 @@ fn cmd_gen(args: &Args) -> i32 {
     0
 }
 
-fn spawn_workers(prop_id: &str, seed: u64, from: u64, to: u64, jobs: u64, work: &str, known: &[String], want_hashes: bool, deadline: u64, tag: &str) -> Vec<(std::process::Child, String)> {
+#[allow(clippy::too_many_arguments)]
+fn spawn_one(prop_id: &str, seed: u64, from: u64, to: u64, j: u64, jobs: u64, out: &str, known: &[String], want_hashes: bool, deadline: u64, trace: Option<&str>) -> std::process::Child {
     let hang_secs = std::env::var("SIMCHECK_HANG_SECS").unwrap_or_else(|_| "20".to_string());
     let exe = std::env::current_exe().expect("current_exe");
+    let _ = std::fs::remove_file(out);
+    // C18: workers run unprivileged (so that permission faults are real); see bin/check_c18
+    let wrap: Vec<String> = std::env::var("SIMCHECK_WORKER_WRAP").ok().map(|w| w.split_whitespace().map(|x| x.to_string()).collect()).unwrap_or_default();
+    let mut c = if wrap.is_empty() {
+        Command::new(&exe)
+    } else {
+        let mut c = Command::new(&wrap[0]);
+        c.args(&wrap[1..]).arg(&exe);
+        c
+    };
+    c.arg("worker")
+        .arg(prop_id)
+        .args(["--seed", &seed.to_string()])
+        .args(["--from", &from.to_string()])
+        .args(["--to", &to.to_string()])
+        .args(["--offset", &j.to_string()])
+        .args(["--stride", &jobs.to_string()])
+        .args(["--out", out])
+        .args(["--deadline-secs", &deadline.to_string()])
+        .args(["--hang-secs", &hang_secs])
+        .args(["--known", &known.join("\u{1f}")]);
+    if want_hashes {
+        c.args(["--want-hashes", "1"]);
+    }
+    if let Some(t) = trace {
+        c.args(["--trace", t]);
+        c.stderr(std::process::Stdio::null());
+    }
+    c.spawn().unwrap_or_else(|e| {
+        eprintln!("harness error: cannot spawn worker: {}", e);
+        std::process::exit(2);
+    })
+}
+
+#[allow(clippy::too_many_arguments)]
+fn spawn_workers(prop_id: &str, seed: u64, from: u64, to: u64, jobs: u64, work: &str, known: &[String], want_hashes: bool, deadline: u64, tag: &str) -> Vec<(std::process::Child, String)> {
     let mut children = Vec::new();
     for j in 0..jobs {
         let out = format!("{}/{}-{}-w{}.json", work, prop_id, tag, j);
-        let _ = std::fs::remove_file(&out);
-        // C18: workers run unprivileged (so that permission faults are real); see bin/check_c18
-        let wrap: Vec<String> = std::env::var("SIMCHECK_WORKER_WRAP").ok().map(|w| w.split_whitespace().map(|x| x.to_string()).collect()).unwrap_or_default();
-        let mut c = if wrap.is_empty() {
-            Command::new(&exe)
-        } else {
-            let mut c = Command::new(&wrap[0]);
-            c.args(&wrap[1..]).arg(&exe);
-            c
-        };
-        c.arg("worker")
-            .arg(prop_id)
-            .args(["--seed", &seed.to_string()])
-            .args(["--from", &from.to_string()])
-            .args(["--to", &to.to_string()])
-            .args(["--offset", &j.to_string()])
-            .args(["--stride", &jobs.to_string()])
-            .args(["--out", &out])
-            .args(["--deadline-secs", &deadline.to_string()])
-            .args(["--hang-secs", &hang_secs])
-            .args(["--known", &known.join("\u{1f}")]);
-        if want_hashes {
-            c.args(["--want-hashes", "1"]);
-        }
-        let child = c.spawn().unwrap_or_else(|e| {
-            eprintln!("harness error: cannot spawn worker: {}", e);
-            std::process::exit(2);
-        });
+        let child = spawn_one(prop_id, seed, from, to, j, jobs, &out, known, want_hashes, deadline, None);
         children.push((child, out));
     }
     children
 }
 
-fn collect(children: Vec<(std::process::Child, String)>) -> Vec<WorkerReport> {
+/// A worker that died without leaving a report: (worker index, exit code, signal).
+type Death = (u64, Option<i32>, Option<i32>);
+
+fn collect_or_death(children: Vec<(std::process::Child, String)>) -> (Vec<WorkerReport>, Vec<Death>) {
+    use std::os::unix::process::ExitStatusExt;
     let mut reps = Vec::new();
-    for (mut ch, out) in children {
+    let mut deaths = Vec::new();
+    for (j, (mut ch, out)) in children.into_iter().enumerate() {
         let st = ch.wait().expect("wait");
         let s = std::fs::read_to_string(&out).unwrap_or_default();
         match serde_json::from_str::<WorkerReport>(&s) {
             Ok(r) => reps.push(r),
-            Err(e) => {
-                eprintln!("harness error: worker exited with {:?} and left no report at {} ({})", st.code(), out, e);
-                std::process::exit(2);
+            Err(_) => {
+                deaths.push((j as u64, st.code(), st.signal()));
+                reps.push(WorkerReport::default());
             }
         }
     }
+    (reps, deaths)
+}
+
+fn collect(children: Vec<(std::process::Child, String)>) -> Vec<WorkerReport> {
+    let (reps, deaths) = collect_or_death(children);
+    if let Some((j, code, sig)) = deaths.first() {
+        eprintln!("harness error: worker {} exited with code {:?} signal {:?} and left no report", j, code, sig);
+        std::process::exit(2);
+    }
     reps
+}
+
+/// A worker process died (abort, segfault, stack overflow): re-run its slice with a write-ahead
+/// trace, which pins down the world and the operation that kills the process.
+#[allow(clippy::too_many_arguments)]
+fn locate_crash(prop_id: &str, seed: u64, runs: u64, j: u64, jobs: u64, work: &str, known: &[String], deadline: u64) -> Option<(u64, World, Vec<Op>)> {
+    let trace = format!("{}/{}-crash-w{}.trace", work, prop_id, j);
+    let out = format!("{}/{}-crash-w{}.json", work, prop_id, j);
+    let _ = std::fs::remove_file(&trace);
+    let mut ch = spawn_one(prop_id, seed, 0, runs, j, jobs, &out, known, false, deadline, Some(&trace));
+    let _ = ch.wait();
+    let died = serde_json::from_str::<WorkerReport>(&std::fs::read_to_string(&out).unwrap_or_default()).is_err();
+    let text = std::fs::read_to_string(&trace).unwrap_or_default();
+    let _ = std::fs::remove_file(&trace);
+    let _ = std::fs::remove_file(&out);
+    let _ = std::fs::remove_file(format!("{}.hashes", out));
+    if !died {
+        return None;
+    }
+    let mut run = 0u64;
+    let mut world = None;
+    let mut ops = Vec::new();
+    for l in text.lines() {
+        if let Some(r) = l.strip_prefix("RUN ") {
+            run = r.parse().ok()?;
+        } else if let Some(w) = l.strip_prefix("WORLD ") {
+            world = serde_json::from_str::<World>(w).ok();
+        } else if let Some(o) = l.strip_prefix("OP ") {
+            ops.push(serde_json::from_str::<Op>(o).ok()?);
+        }
+    }
+    Some((run, world?, ops))
 }
 
 fn cmd_run(args: &Args) -> i32 {
@@ -215,8 +272,31 @@ fn cmd_run(args: &Args) -> i32 {
     if id == "C18" {
         observe_enospc();
     }
-    let reps = collect(spawn_workers(id, seed, 0, runs, jobs, &work, &known_sigs, false, deadline, tier));
+    let (reps, deaths) = collect_or_death(spawn_workers(id, seed, 0, runs, jobs, &work, &known_sigs, false, deadline, tier));
     let wall_search = start.elapsed().as_secs_f64();
+    let mut crash: Option<FoundViolation> = None;
+    if let Some((j, code, sig)) = deaths.first() {
+        match locate_crash(id, seed, runs, *j, jobs, &work, &known_sigs, deadline) {
+            Some((run, world, ops)) => {
+                let step = ops.len().saturating_sub(1);
+                crash = Some(FoundViolation {
+                    run,
+                    world,
+                    ops,
+                    violation: Violation {
+                        signature: "crash/worker_process_died".to_string(),
+                        step,
+                        expected: "the operation returns (or panics and unwinds)".to_string(),
+                        observed: format!("the process executing it died: exit code {:?}, signal {:?}", code, sig),
+                    },
+                });
+            }
+            None => {
+                eprintln!("harness error: worker {} died (code {:?}, signal {:?}) without a report and the death did not repeat under tracing", j, code, sig);
+                return 2;
+            }
+        }
+    }
 
     // merge
     let mut total = WorkerReport::default();
@@ -267,6 +347,10 @@ fn cmd_run(args: &Args) -> i32 {
     let mut exit = 0;
     let mut n_viol = 0;
     let mut replay_path = String::new();
+    let hang = match (hang, crash) {
+        (Some(h), Some(c)) => Some(if c.run < h.run { c } else { h }),
+        (h, c) => h.or(c),
+    };
     if let Some(h) = hang {
         // a hang cannot be minimised in-process; report the literal history up to the call that
         // did not return
@@ -281,7 +365,7 @@ fn cmd_run(args: &Args) -> i32 {
             violation: Violation { signature: format!("{}/{}", id, h.violation.signature), ..h.violation },
             minimised: false,
             original_ops: h.ops.len(),
-            note: "hang: the last operation did not return within the watchdog limit".to_string(),
+            note: "hang or crash: the last operation did not return (watchdog) or killed the process executing it".to_string(),
         };
         let mut rf = rf;
         replay_path = format!("{}/replays/{}-{}-{}.json", root, id, seed, rf.run);
@@ -565,6 +649,40 @@ fn cmd_replay(args: &Args) -> i32 {
         eprintln!("harness error: unknown property {}", rf.property);
         return 2;
     };
+    // crash replays: the history kills the process executing it, so it runs in a child
+    let expect_crash = rf.violation.signature.ends_with("crash/worker_process_died");
+    if expect_crash && args.get("inner").is_none() {
+        use std::os::unix::process::ExitStatusExt;
+        let st = Command::new(std::env::current_exe().unwrap())
+            .arg("replay")
+            .arg(path)
+            .args(["--inner", "1", "--quiet", "1"])
+            .stderr(std::process::Stdio::null())
+            .status();
+        return match st {
+            Ok(st) if st.code() == Some(0) => {
+                if !quiet {
+                    println!("replay: no violation (the recorded crash does not occur on this tree)");
+                }
+                0
+            }
+            Ok(st) if st.signal().is_some() || !matches!(st.code(), Some(0) | Some(1) | Some(2)) => {
+                if !quiet {
+                    println!("VIOLATION property={} replay={}", rf.property, path);
+                    println!("  reproduced: signature={} (the process executing the history died: code {:?}, signal {:?})", rf.violation.signature, st.code(), st.signal());
+                }
+                1
+            }
+            Ok(st) => {
+                eprintln!("replay mismatch: the history did not kill the process but ended with exit code {:?}", st.code());
+                2
+            }
+            Err(e) => {
+                eprintln!("harness error: cannot spawn the replay child: {}", e);
+                2
+            }
+        };
+    }
     // hang replays: a watchdog turns "does not return" into the recorded signature
     let expect_hang = rf.violation.signature.ends_with("hang/no_progress");
     let sig = rf.violation.signature.clone();
